@@ -37,7 +37,7 @@ CLAIMED.update({
  "C08": ("sibling agreement between the type classifier and the number extractor (recogniser sets); accessor/setter pairing and exactness lint in the extractor; reflect-kind dataflow after the stripping loop and at every keyword group; key-provenance rule on reflect map accesses",
          "Representation independence as code shape: same numeric sources recognised by classifier and extractor, exact extraction, pointer/interface stripping in any nesting, keys converted to the map's key type, keyword groups guarded by (and covering) the right kinds, equality normalising wrappers, property names evaluated as Go strings, zero-means-missing only for struct instances, no fact about the instance computed only next to certain keywords, nilness treated alike by hasher and equality. Not verdict equality for concrete values.", "4/C08"),
  "C11": ("guard/dominance analysis of the equality function: numbers first through the exact extractor, exactness lint over the closure of Equal, reflect-kind dataflow at the kind-mismatch exit, length-before-elements and missing-key guards on every recursive call, kind sets at explicit panics",
-         "Structure of JSON equality decided for all inputs: exact numeric comparison first, number never equals non-number, wrappers stripped on both sides, arrays vs slices element-wise, lengths before elements, missing keys unequal, identity shortcuts after length tests, panics only outside the JSON domain, Go equality (Value.Equal, DeepEqual) only for bool and string kinds. Not the algebraic laws.", "4/C11"),
+         "Structure of JSON equality decided for all inputs: exact numeric comparison first, number never equals non-number, wrappers stripped on both sides, arrays vs slices element-wise, lengths before elements, missing keys unequal, identity shortcuts after length tests, panics only outside the JSON domain, Go equality (Value.Equal, DeepEqual) only for bool and string kinds, the number extractor never answers not-a-number for a recognised number (one known finding: exponents big.Rat refuses). Not the algebraic laws.", "4/C11"),
  "C12": ("control dependence of the enum/const/uniqueItems failure exits on the equality function; must-pass-through of bucket recording; sibling agreement between hasher and equality via reflect-kind dataflow at every hash write; sort-before-use of map keys; def-use of the hash seed",
          "enum/const/uniqueItems are decided by the equality function, every item is recorded and compared with its whole bucket, the hash is representation independent and deterministic for equal values, one seed per call. Includes the C11 equality clauses. Not collision behaviour.", "4/C12"),
 })
